@@ -49,7 +49,7 @@ def gen_expr(rng, pool, conts, depth=0):
     return ["bin", rng.choice("+-*"), gen_expr(rng, pool, conts, depth + 1), gen_expr(rng, pool, conts, depth + 1)]
 
 
-def gen_history(rng, profile="mixed", nops=None):
+def gen_history(rng, profile="mixed", nops=None, nofun=False):
     nested = profile not in ("flat", "assign_flat")
     spec, leaves, conts = make_store(rng, nested)
     rank = list(leaves)
@@ -103,11 +103,11 @@ def gen_history(rng, profile="mixed", nops=None):
             ops.append(["inplace", t, rng.choice("+-*"), rng.randint(-3, 3)])
         elif k < 0.86:
             ops.append(["unregister", t])
-        elif k < 0.90 and pool and profile not in ("flat",):
+        elif k < 0.90 and pool and profile not in ("flat",) and not nofun:
             funs += 1
             srcs = [rng.choice(pool)]
             ops.append(["regfun", f"fn{funs}", [t], srcs, [[t, ["bin", "+", ["ref", srcs[0]], ["const", rng.randint(1, 3)]]]]])
-        elif k < 0.93 and pool and profile not in ("flat", "fault"):
+        elif k < 0.93 and pool and profile not in ("flat", "fault") and not nofun:
             funs += 1
             tg = [p for p in leaves if p != pool[0]][:]
             rng.shuffle(tg)
